@@ -15,9 +15,11 @@ PARALLEL = 3
 
 def model_check(ctx):
     ctx.mc("AxisPerm", "MC_AxisPerm_q.cfg" if ctx.quick else "MC_AxisPerm_t.cfg",
-           label="3x2x1 (thorough: 3x2x2, 4x3x2, 2x3x1) lattices, every boundary kind per axis, absorbing layer on every open axis, every source entry + dense state")
+           label="3x2x1 (thorough: 3x2x2, 4x3x2, 2x3x1) lattices, every boundary kind per axis, absorbing layer on every open axis, every source entry + dense state, diagonal and full symmetric 3x3 coefficient tensors")
     ctx.mc_negative("AxisPerm", "MC_AxisPerm_neg.cfg")    # layer-loop branch of axis y returns the wrong derivative pair
+    ctx.mc_negative("AxisPerm", "MC_AxisPerm_neg4.cfg")   # tensor relabelling that permutes only the diagonal
     if not ctx.quick:
+        ctx.mc_negative("AxisPerm", "MC_AxisPerm_neg5.cfg")   # yz coupling averaged at the wrong location
         ctx.mc_negative("AxisPerm", "MC_AxisPerm_neg2.cfg")   # curl_y operand order
         ctx.mc_negative("AxisPerm", "MC_AxisPerm_neg3.cfg")   # PEC tangential table of the y faces
     ctx.assumptions += [
@@ -31,13 +33,26 @@ def pv(v):
     return [v[2], v[0], v[1]]
 
 
+def pt(eps):
+    """relabel a material entry: scalar, diagonal [ex,ey,ez] or full 3x3 tensor (pi acts on both indices)"""
+    if not isinstance(eps, list):
+        return eps
+    if isinstance(eps[0], list):
+        out = [[0.0] * 3 for _ in range(3)]
+        for r in range(3):
+            for c in range(3):
+                out[(r + 1) % 3][(c + 1) % 3] = eps[r][c]
+        return out
+    return pv(eps)
+
+
 def perm_scene(sc):
     """relabel x->y->z->x"""
     face = {"x": "y", "y": "z", "z": "x"}
     out = dict(sc)
     out["shape"] = pv(sc["shape"])
     out["bounds"] = {f[:4] + face[f[4]]: k for f, k in sc["bounds"].items()}
-    out["slabs"] = [dict(s, lo=pv(s["lo"]), hi=pv(s["hi"]), eps=pv(s["eps"]) if isinstance(s["eps"], list) else s["eps"],
+    out["slabs"] = [dict(s, lo=pv(s["lo"]), hi=pv(s["hi"]), eps=pt(s["eps"]),
                          sigma=pv(s["sigma"]) if isinstance(s.get("sigma"), list) else s.get("sigma", 0.0)) for s in sc.get("slabs", [])]
     srcs = []
     for s in sc.get("sources", []):
@@ -60,7 +75,16 @@ def perm_scene(sc):
     return out
 
 
-def _scene(rng, T):
+def _full_tensor(rng):
+    """full symmetric positive-definite permittivity tensor, all three couplings non-zero and distinct"""
+    d = [round(rng.uniform(2.0, 3.5), 3) for _ in range(3)]
+    xy, xz, yz = rng.sample([0.1, 0.2, 0.3, 0.15, 0.25, 0.35], 3)
+    sg = [rng.choice([1, -1]) for _ in range(3)]
+    xy, xz, yz = sg[0] * xy, sg[1] * xz, sg[2] * yz
+    return [[d[0], xy, xz], [xy, d[1], yz], [xz, yz, d[2]]]
+
+
+def _scene(rng, T, full=False):
     shape = [rng.randint(5, 7) for _ in range(3)]
     bounds = {}
     plane_axis = rng.randrange(3)
@@ -79,9 +103,18 @@ def _scene(rng, T):
     lo = [rng.randrange(0, n - 1) for n in shape]
     lo[plane_axis] = rng.randrange(4, shape[plane_axis] - 1)   # plane sources inside anisotropic materials are unsupported
     hi = [rng.randrange(l + 1, n + 1) for l, n in zip(lo, shape)]
-    slab = {"lo": lo, "hi": hi, "eps": [round(rng.uniform(1.2, 4.0), 3) for _ in range(3)], "sigma": rng.choice([0.0, 0.0, [50.0, 120.0, 300.0]])}
+    if full:   # at least 3 cells per axis so that the off-diagonal four-point averages act inside the medium
+        lo = [min(l, n - 3) for l, n in zip(lo, shape)]
+        hi = [max(h, l + 3) for h, l in zip(hi, lo)]
+    if full:   # full 3x3 tensor (lossless): update_E takes the full anisotropic branch with off-diagonal averages
+        slab = {"lo": lo, "hi": hi, "eps": _full_tensor(rng), "sigma": 0.0}
+    else:
+        slab = {"lo": lo, "hi": hi, "eps": [round(rng.uniform(1.2, 4.0), 3) for _ in range(3)], "sigma": rng.choice([0.0, 0.0, [50.0, 120.0, 300.0]])}
     inner = lambda: [rng.randrange(2, n - 2) for n in shape]
-    sources = [{"kind": "dipole", "pos": inner(), "pol": rng.randrange(3), "wl": 400e-9},
+    epos = inner()
+    if full:   # electric dipole inside the tensor medium
+        epos = [min(max((l + h) // 2, 2), n - 3) for l, h, n in zip(lo, hi, shape)]
+    sources = [{"kind": "dipole", "pos": epos, "pol": rng.randrange(3), "wl": 400e-9},
                {"kind": "mdipole", "pos": inner(), "pol": rng.randrange(3), "wl": 500e-9, "amp": 0.7}]
     if rng.random() < 0.7:
         epol = [0.0, 0.0, 0.0]
@@ -102,7 +135,8 @@ def gen_cases(ctx):
     rng = random.Random(ctx.seed * 104729 + 8)
     ctx.exhaustive = False
     for n in range(4 if ctx.quick else 30):
-        yield {"id": f"scene{n}", "scene": _scene(rng, 8)}
+        full = n % 2 == 1     # every second scene carries a full symmetric 3x3 permittivity tensor
+        yield {"id": f"scene{n}-{'full3x3' if full else 'diag'}", "scene": _scene(rng, 8, full)}
 
 
 def observe(case):
